@@ -118,3 +118,18 @@ Theorem C03_first_call_found : forall pre body post,
   exists more, find_calls (pre ++ KW ++ body ++ RPc :: post) = (length pre, (length pre + 15 + S (length body))%nat) :: more.
 Proof. exact first_call_found. Qed.
 Print Assumptions C03_first_call_found.
+
+(* ---- is a reference inside a predicate of a secondary-instance path?  By bracket depth (Model/InPredicate.v; source pinned) ---- *)
+Require Import PX.Model.InPredicate PX.Proofs.InPredicate.
+(* after a bracket that is still open the reference is inside -- whatever complete predicates, nested to any depth, stand before it or
+   between the bracket and it; with two brackets open (the outer of two nested predicates: defect F74) likewise; after complete predicates
+   only it is outside *)
+Theorem C03_open_bracket_is_inside : forall a b, bbalanced a -> bbalanced b -> in_predicate (a ++ LB :: b) = true.
+Proof. exact open_bracket_is_inside. Qed.
+Print Assumptions C03_open_bracket_is_inside.
+Theorem C03_two_open_brackets_inside : forall a b c, bbalanced a -> bbalanced b -> bbalanced c -> in_predicate (a ++ LB :: b ++ LB :: c) = true.
+Proof. exact two_open_brackets_inside. Qed.
+Print Assumptions C03_two_open_brackets_inside.
+Theorem C03_after_complete_predicates_outside : forall a, bbalanced a -> in_predicate a = false.
+Proof. exact after_complete_predicates_outside. Qed.
+Print Assumptions C03_after_complete_predicates_outside.
